@@ -44,8 +44,8 @@ Qed.
 Theorem cinv_run max : forall es s, CInv max s -> CInv max (crun max s es).
 Proof. induction es as [|e es IH]; intros s I; [exact I|]. cbn. apply IH. now apply cinv_step. Qed.
 
-(* admission: a new connection is admitted iff fewer than max are being served *)
-Theorem admit_iff max s c : CInv max s -> ~ In c (opened s) ->
+(* acceptance: a new connection is let in iff fewer than max are being served *)
+Theorem accept_iff max s c : CInv max s -> ~ In c (opened s) ->
   snd (cstep max s (CAccept c)) = true <-> (Z.of_nat (length (opened s)) < max)%Z.
 Proof.
   intros (Hc & _ & _) Hn. cbn [cstep].
